@@ -1153,8 +1153,11 @@ impl<Sink: TokenSink> XmlTokenizer<Sink> {
         let _ = self.run(&input);
 
         loop {
-            if !matches!(self.eof_step(), ProcessResult::Continue) {
-                break;
+            match self.eof_step() {
+                // A tag emitted at EOF may make the sink ask for a script; there is no caller
+                // to hand it to any more, and the EOF token is still to be delivered.
+                ProcessResult::Continue | ProcessResult::Script(_) => (),
+                ProcessResult::Done => break,
             }
         }
 
